@@ -340,6 +340,8 @@ impl<'c, Param, Yield, Return> Coroutine<'c, Param, Yield, Return> {
         stack_size: usize,
         callback: F,
     ) -> std::io::Result<R> {
+        // the callback is promised `red_zone` bytes whatever `stack_size` says
+        let stack_size = stack_size.max(red_zone);
         if let Some(co) = Self::current() {
             let remaining_stack = unsafe { co.remaining_stack() };
             if remaining_stack >= red_zone {
